@@ -97,7 +97,7 @@ pub const GOOD_DEPENDS: [&str; 8] = [
 pub const BAD_DEPENDS: [&str; 8] =
     ["hello", "pkg>1>2:../../cat/pkg", "a:b:c", "pkg-[0-9*:../../cat/pkg", "pkg-1:cat", "pkg-1:../cat/pkg", "{a-1:../../c/p", ":"];
 pub const GOOD_LOCATIONS: [&str; 4] = ["cat/pkg", "../../cat/pkg", "devel//libx/", "pkgtools/pkg_install"];
-pub const BAD_LOCATIONS: [&str; 5] = ["cat", "../cat/pkg", "/cat/pkg", "a/b/c", "./a"];
+pub const BAD_LOCATIONS: [&str; 7] = ["cat", "../cat/pkg", "/cat/pkg", "a/b/c", "./a", "", "../../"];
 
 // ------------------------------------------------------------------ generator
 
